@@ -38,7 +38,8 @@ func main() {
 			"target bytes coalesced with the downstream proxy's 200 head, ping-pong messages, bulk 0 B..1 MiB quick / 8 MiB thorough with PRNG chunking and pauses); " +
 			"one end closes (full or half close) before/during/after the peer's stream; on TCP also abortive closes (SO_LINGER 0, close with unread input) while the peer sits idle; " +
 			"connections the proxy cannot half-close (net.Conn-only wrappers on the dial and/or accept side, trafficshape.Listener); eleven downstream 2xx answers (200/201/202/204/299, HTTP/1.0 and 1.1) cycled over the cases; uploads to an end that half-closed first and reads slowly; a client that half-closes right behind the CONNECT head; long-lived tunnels that fall silent for 12 s (quick) / 35 s (thorough) and then talk again; " +
-			"and a swarm family: 4-16 concurrent tunnels x 3-5 rounds through one proxy and one downstream proxy whose targets speak first in the same write as the 200 head, optional PRNG-delayed response modifier. A class is route x transport x early-data bucket x observed split x " +
+			"(then one end half-closes and the other direction is used again 7 s / 12 s later); " +
+			"and a swarm family (same or distinct authorities, simultaneous or staggered endings, bursts of failing dials on the same proxy): 4-16 concurrent tunnels x 3-5 rounds through one proxy and one downstream proxy whose targets speak first in the same write as the 200 head, optional PRNG-delayed response modifier. A class is route x transport x early-data bucket x observed split x " +
 			"who closed first x close mode x observed close timing x size bucket, tallied only after the oracle ran on the case; plus unreachable-target classes (closed port, and dial functions failing at once with refused / timeout-class / DNS / network-unreachable / plain errors, both routes)",
 		Assumptions: []string{
 			"liveness clauses (bytes delivered while the tunnel is open, EOF propagation, release) are decided by quiescence of all martian goroutines with the proxy timeout at 10 min; per process only the first stuck wait of a signature uses the full window (5 s grace + 6 samples), later ones of the same signature shorter windows (4 samples/0.6 s, then 3 samples/0.1 s) and are only counted; a replay of a single case always uses the full window",
